@@ -357,28 +357,23 @@ def tokensOf (t : Tok) (len : Nat) : List (List Nat) :=
     | none => []
 
 open Librfn.Spec.Console in
-/-- the render / tokenise round trip, for items satisfying `extra` besides `Item.Ok`: a command word,
-    at most two further items (words, or quoted strings), separated by blanks, optionally followed by
-    blanks and a final word — whatever follows the line's terminator in the buffer and whatever `argv`
-    held before -/
-def RoundTrip (extra : Item → Prop) : Prop :=
+/-- the render / tokenise round trip as DESIGN.md words it: a command word, at most two further items
+    (words without blanks/quotes, or non-empty strings quoted by a quote character they do not contain —
+    they may start with the *other* quote character), separated by any positive amount of blanks,
+    optionally followed by blanks and a final word — whatever follows the line's terminator in the
+    buffer and whatever `argv` held before: the tokens are exactly the items -/
+def TokenizeRoundtrip : Prop :=
   ∀ (cmd : List Nat) (args : List (List Nat × Item)) (final : Option (List Nat × List Nat))
     (tail : List Nat) (argv0 : List (Option Nat)),
-    Word cmd → (∀ a ∈ args, Blanks a.1 ∧ a.2.Ok ∧ extra a.2) → args.length ≤ 2 →
+    Word cmd → (∀ a ∈ args, Blanks a.1 ∧ a.2.Ok) → args.length ≤ 2 →
     (∀ f, final = some f → Blanks f.1 ∧ Word f.2) → argv0.length = 4 →
     tokensOf (tokenizeMem (render cmd args final ++ 0 :: tail) argv0 (render cmd args final).length)
       (render cmd args final).length = texts cmd args final
 
-/-- **tokenize_roundtrip at the strength DESIGN.md states it** ("non-empty strings quoted by a quote
-    they do not contain").  It does *not* hold for the code as it is — see
-    `tokenize_roundtrip_fails` (finding D10) — and is therefore kept as a `Prop`. -/
-def TokenizeRoundtrip : Prop := RoundTrip (fun _ => True)
-
 open Librfn.Spec.Console Librfn.Lemmas.ConsoleScan Librfn.Lemmas.ConsoleSeg Librfn.Lemmas.ConsoleRound in
-/-- **tokenize_roundtrip_partial**: the round trip holds for every argument list in which no quoted
-    string *starts* with a quote character (all separators, all lengths, any buffer contents after
-    the line).  What is missing for the full statement is exactly D10. -/
-theorem tokenize_roundtrip_partial : RoundTrip Item.NoNestedQuote := by
+/-- **tokenize_roundtrip** at full strength (holds since the fix 15aaa9d of defect D11; for the code
+    before it see `d11_old_tokenizer_mangles_nested_quote`) -/
+theorem tokenize_roundtrip : TokenizeRoundtrip := by
   intro cmd args final tail argv0 hcmd hargs hn hfinal ha
   obtain ⟨hne, hall⟩ := hcmd
   cases cmd with
@@ -451,22 +446,16 @@ theorem tokenize_roundtrip_partial : RoundTrip Item.NoNestedQuote := by
         rw [q2 tail, show 1 + j = j + 1 by omega, List.getElem?_cons_succ, List.getElem?_eq_getElem hj]
     · rw [List.getElem?_eq_none (by simp; omega), List.getElem?_eq_none (by simp; omega)]
 
-open Librfn.Spec.Console in
-/-- **finding D10, proved about the model and replayed on the real code by the corpus**: the line
-    `cap "'a"` gives `argv[1] = a"` instead of `'a`, so the round trip as DESIGN.md states it fails. -/
-theorem tokenize_roundtrip_fails : ¬ TokenizeRoundtrip := by
-  intro h
-  have := h [99, 97, 112] [([32], .quoted 34 [39, 97])] none [] [none, none, none, none]
-    (by unfold Word printable isQuote SQ DQ; decide)
-    (by
-      intro a ha
-      simp only [List.mem_singleton] at ha
-      subst ha
-      refine ⟨by unfold Blanks blank; decide, ?_, trivial⟩
-      unfold Item.Ok isQuote SQ DQ
-      decide)
-    (by decide) (by intro f hf; cases hf) rfl
-  revert this
+/-- the strings a command saw with the tokeniser as it was before 15aaa9d -/
+def tokensOfOld (mem : List Byte) (len : Nat) : List (List Nat) :=
+  tokensOf (tokenizeMemOld mem [none, none, none, none] len) len
+
+/-- **defect D11 (fixed by 15aaa9d), kernel-checked on the old variant of the loop**: the line
+    `cap "'a"` gave `argv[1] = a"` with the old code; the current code gives `'a`.  The same line is
+    the regression witness `corpus/C15/d11_nested_quote.json`, replayed on the real code every run. -/
+theorem d11_old_tokenizer_mangles_nested_quote :
+    tokensOfOld [99, 97, 112, 32, 34, 39, 97, 34, 0] 8 = [[99, 97, 112], [97, 34]] ∧
+    tokensOf (tokenizeMem [99, 97, 112, 32, 34, 39, 97, 34, 0] [none, none, none, none] 8) 8 = [[99, 97, 112], [39, 97]] := by
   decide
 
 open Librfn.Spec.Console in
@@ -501,13 +490,13 @@ theorem unquoted_simple_split_partial (cmd : List Nat) (more : List (List Nat ×
   have key : ∀ (args : List (List Nat × Item)) (final : Option (List Nat × List Nat)),
       render cmd args final = cmd ++ (more.map fun a => a.1 ++ a.2).flatten →
       texts cmd args final = cmd :: more.map (·.2) →
-      (∀ a ∈ args, Blanks a.1 ∧ a.2.Ok ∧ a.2.NoNestedQuote) → args.length ≤ 2 →
+      (∀ a ∈ args, Blanks a.1 ∧ a.2.Ok) → args.length ≤ 2 →
       (∀ f, final = some f → Blanks f.1 ∧ Word f.2) →
       tokensOf (tokenizeMem (cmd ++ (more.map fun a => a.1 ++ a.2).flatten ++ 0 :: tail) argv0
         (cmd ++ (more.map fun a => a.1 ++ a.2).flatten).length) (cmd ++ (more.map fun a => a.1 ++ a.2).flatten).length
         = cmd :: more.map (·.2) := by
     intro args final h1 h2 h3 h4 h5
-    have := tokenize_roundtrip_partial cmd args final tail argv0 hcmd h3 h4 h5 ha
+    have := tokenize_roundtrip cmd args final tail argv0 hcmd h3 h4 h5 ha
     rw [h1, h2] at this
     exact this
   match more, hmore, hn with
@@ -516,7 +505,7 @@ theorem unquoted_simple_split_partial (cmd : List Nat) (more : List (List Nat ×
     exact key [(a.1, .word a.2)] none (by simp [render, renderArgs, Item.render]) (by simp [texts, Item.text])
       (by
         intro x hx; simp only [List.mem_singleton] at hx; subst hx
-        exact ⟨(hm a (List.mem_cons_self ..)).1, (hm a (List.mem_cons_self ..)).2, trivial⟩)
+        exact ⟨(hm a (List.mem_cons_self ..)).1, (hm a (List.mem_cons_self ..)).2⟩)
       (by simp) (by intro f hf; cases hf)
   | [a, b], hm, _ =>
     exact key [(a.1, .word a.2), (b.1, .word b.2)] none (by simp [render, renderArgs, Item.render]) (by simp [texts, Item.text])
@@ -524,8 +513,8 @@ theorem unquoted_simple_split_partial (cmd : List Nat) (more : List (List Nat ×
         intro x hx
         simp only [List.mem_cons, List.mem_nil_iff, or_false] at hx
         rcases hx with rfl | rfl
-        · exact ⟨(hm a (by simp)).1, (hm a (by simp)).2, trivial⟩
-        · exact ⟨(hm b (by simp)).1, (hm b (by simp)).2, trivial⟩)
+        · exact ⟨(hm a (by simp)).1, (hm a (by simp)).2⟩
+        · exact ⟨(hm b (by simp)).1, (hm b (by simp)).2⟩)
       (by simp) (by intro f hf; cases hf)
   | [a, b, c], hm, _ =>
     exact key [(a.1, .word a.2), (b.1, .word b.2)] (some (c.1, c.2)) (by simp [render, renderArgs, Item.render]) (by simp [texts, Item.text])
@@ -533,8 +522,8 @@ theorem unquoted_simple_split_partial (cmd : List Nat) (more : List (List Nat ×
         intro x hx
         simp only [List.mem_cons, List.mem_nil_iff, or_false] at hx
         rcases hx with rfl | rfl
-        · exact ⟨(hm a (by simp)).1, (hm a (by simp)).2, trivial⟩
-        · exact ⟨(hm b (by simp)).1, (hm b (by simp)).2, trivial⟩)
+        · exact ⟨(hm a (by simp)).1, (hm a (by simp)).2⟩
+        · exact ⟨(hm b (by simp)).1, (hm b (by simp)).2⟩)
       (by simp)
       (by
         intro f hf
